@@ -166,7 +166,7 @@ def replaceNamedPort (c : ConnSet) (pr : Proto) (name : String) (num : Int) : Op
   | none => none
   | some ps =>
     let ps1 := if num != noPort then ps.addPort (.num num) else ps
-    some (c.set pr (some (ps1.removePort (.name name))))
+    some (c.set pr (some { ps1 with named := serase name ps1.named }))
 
 /-- `ProtocolsAndPortsMap`: per protocol the list of numeric ranges -/
 def protocolsAndPorts (c : ConnSet) : List (Proto × CSet) :=
